@@ -2,7 +2,8 @@
    Property theorems only; proofs in theories/PlatformLemmas.v, NetworkLemmas.v.
    The definitions are REGENERATED into Generated.v from assets/platforms/*.yaml and
    platform/definition.go on every run, so these statements are about what the tree says now. *)
-From Scrapli Require Import Bytes BytesLemmas Regex PlatformTypes Generated Channel Network NetworkAbs NetworkLemmas Platform PlatformLemmas.
+From Coq Require Import List.
+From Scrapli Require Import Bytes BytesLemmas Regex PlatformTypes Generated Channel Network NetworkAbs NetworkLemmas NetworkTwins Platform PlatformLemmas PlatformNav.
 
 (* every advertised name has an embedded definition (exhaustive over the generated name list) *)
 Theorem C17_names : forallb (fun n => mem_bytes n embedded_platform_files) advertised_platforms = true.
@@ -39,7 +40,128 @@ Theorem C17_variant : forall b v,
   /\ pf_options (merge_variant b v) = pf_options b.
 Proof. exact merge_variant_spec. Qed.
 
+(* ---- navigation on every embedded network platform (proofs in theories/PlatformNav.v) ---- *)
+(* C17 (navigation part) — "Against a device model built from the definition itself ... every
+   level is reachable from every other (levels with indistinguishable prompts counting as one,
+   levels without an escalate command only as starting points)".
+   Property theorems only; proofs in theories/PlatformNav.v (checkers evaluated by vm_compute over
+   the REGENERATED [real_platforms], lifted by reflection), NetworkTwins.v, NetworkLemmas.v.
+   Device model: NetworkAbs.dev_line over the definition's own levels; prompt of a level := its
+   canonical prompt (Generated.platform_prompts); Go's map iteration orders universally quantified
+   ([orders_ok]). *)
+Import ListNotations.
+
+(* every embedded network platform passes every checker: no platform is excepted *)
+Theorem C17_nav_all : forallb nav_ok_b real_network_platforms = true.
+Proof. exact all_network_platforms_nav_ok. Qed.
+
+(* hence the hypotheses of the twin-aware acquire theorem hold of each, whatever the map orders *)
+Theorem C17_nav_hypotheses : forall pd, In pd nav_platforms ->
+  forall net, n_levels net = pd_levels pd -> orders_ok net ->
+  tree_wf (n_levels net) = true /\ ~ In [] (names (n_levels net))
+  /\ prompts_identify_upto_twins net (canonical_prompt_of pd)
+  /\ unknown_not_twin net (canonical_prompt_of pd)
+  /\ cmds_ok_weak (n_levels net).
+Proof. exact nav_platform_hypotheses. Qed.
+
+(* navigation on every embedded network platform: from any level with an accurate cache (or an
+   unambiguous prompt) AcquirePriv reaches any target whose tree path enters no level without an
+   escalate command — in particular ([target_ok_b]) any target that is neither such a level nor
+   below one — sending exactly the commands of the tree path; the cache is accurate afterwards *)
+Theorem C17_navigation : forall pd, In pd real_platforms ->
+  pf_driver_type (pd_default pd) = bs "network" ->
+  forall net, n_levels net = pf_levels (pd_default pd) -> orders_ok net ->
+  forall d cached target,
+    In (d_mode d) (names (n_levels net)) -> In target (names (n_levels net)) ->
+    (nav_reachable_b (n_levels net) (d_mode d) target = true \/ target_ok_b (n_levels net) target = true) ->
+    cache_ok net (canonical_prompt_of pd) d cached ->
+    exists p d', tree_path (n_levels net) (d_mode d) target = Some p /\
+                 acquire_priv_abs net (canonical_prompt_of pd) d cached target = AOk d' target /\
+                 d_mode d' = target /\ d_log d' = d_log d ++ path_cmds (n_levels net) p /\
+                 cache_ok net (canonical_prompt_of pd) d' target.
+Proof. exact every_network_platform_navigates. Qed.
+
+(* the same in the form of the task statement, over [nav_platforms] (= the filter of
+   [real_platforms] by the checkers, recomputed whenever the YAML changes) *)
+Theorem C17_platform_navigation : forall pd, In pd nav_platforms ->
+  forall net prompt_of, n_levels net = pd_levels pd -> prompt_of = canonical_prompt_of pd ->
+  orders_ok net ->
+  forall d cached target,
+    In (d_mode d) (names (n_levels net)) -> In target (names (n_levels net)) ->
+    nav_reachable_b (n_levels net) (d_mode d) target = true ->
+    cache_ok net prompt_of d cached ->
+    exists p d', tree_path (n_levels net) (d_mode d) target = Some p /\
+                 acquire_priv_abs net prompt_of d cached target = AOk d' target /\
+                 d_mode d' = target /\ d_log d' = d_log d ++ path_cmds (n_levels net) p /\
+                 cache_ok net prompt_of d' target.
+Proof. exact platform_navigation. Qed.
+
+(* session start: the cache is "UNKNOWN", the start level's prompt is unambiguous *)
+Theorem C17_navigation_from_start : forall pd, In pd real_platforms ->
+  pf_driver_type (pd_default pd) = bs "network" ->
+  forall net, n_levels net = pf_levels (pd_default pd) -> orders_ok net ->
+  forall d target,
+    In (d_mode d) (names (n_levels net)) -> In target (names (n_levels net)) ->
+    target_ok_b (n_levels net) target = true ->
+    determine_current net (canonical_prompt_of pd (d_mode d)) = [d_mode d] ->
+    exists p d', tree_path (n_levels net) (d_mode d) target = Some p /\
+                 acquire_priv_abs net (canonical_prompt_of pd) d net_unknown_priv target = AOk d' target /\
+                 d_mode d' = target /\ d_log d' = d_log d ++ path_cmds (n_levels net) p /\
+                 cache_ok net (canonical_prompt_of pd) d' target.
+Proof. exact every_network_platform_navigates_from_start. Qed.
+
+(* the levels "only starting points" are exactly documented: every non-root level without an
+   escalate command in the regenerated definitions is listed in [known_start_only] ... *)
+Theorem C17_start_only_known :
+  forallb (fun pd => forallb (fun t => existsb (fun e => beqb (fst e) (pd_file pd) && beqb (snd e) t) known_start_only)
+                             (start_only (pd_levels pd)))
+          real_network_platforms = true.
+Proof. exact start_only_levels_known. Qed.
+
+(* ... and such a level really cannot be acquired from its parent (the restriction is necessary) *)
+Theorem C17_start_only_unreachable : forallb start_only_fails_b real_network_platforms = true.
+Proof. exact start_only_levels_unreachable. Qed.
+
+(* on every platform not in the documented list the strict NetworkAbs.cmds_ok holds and every
+   level is reachable from every level *)
+Theorem C17_strict_navigation : forall pd, In pd real_platforms ->
+  pf_driver_type (pd_default pd) = bs "network" ->
+  ~ In (pd_file pd) known_partial_platforms ->
+  forall net, n_levels net = pf_levels (pd_default pd) -> orders_ok net ->
+  cmds_ok (n_levels net) /\
+  forall d cached target,
+    In (d_mode d) (names (n_levels net)) -> In target (names (n_levels net)) ->
+    cache_ok net (canonical_prompt_of pd) d cached ->
+    exists p d', tree_path (n_levels net) (d_mode d) target = Some p /\
+                 acquire_priv_abs net (canonical_prompt_of pd) d cached target = AOk d' target /\
+                 d_mode d' = target /\ d_log d' = d_log d ++ path_cmds (n_levels net) p /\
+                 cache_ok net (canonical_prompt_of pd) d' target.
+Proof. exact strict_platform_navigation. Qed.
+
+(* non-vacuity and an independent cross-check by execution over all platforms and level pairs *)
+Theorem C17_navigation_identity_order : forall pd, In pd real_platforms ->
+  pf_driver_type (pd_default pd) = bs "network" ->
+  forall m target log, In m (names (pd_levels pd)) -> In target (names (pd_levels pd)) ->
+    target_ok_b (pd_levels pd) target = true ->
+    exists p d', tree_path (pd_levels pd) m target = Some p /\
+                 acquire_priv_abs (lnet (pd_levels pd)) (canonical_prompt_of pd) (mkADev m log) m target = AOk d' target /\
+                 d_mode d' = target /\ d_log d' = log ++ path_cmds (pd_levels pd) p.
+Proof. exact every_network_platform_navigates_identity_order. Qed.
+
+Theorem C17_navigation_executes : forallb nav_executes_b real_network_platforms = true.
+Proof. exact nav_executes_everywhere. Qed.
+
 Print Assumptions C17_names.
 Print Assumptions C17_wf.
 Print Assumptions C17_paths.
 Print Assumptions C17_variant.
+Print Assumptions C17_nav_all.
+Print Assumptions C17_nav_hypotheses.
+Print Assumptions C17_navigation.
+Print Assumptions C17_platform_navigation.
+Print Assumptions C17_navigation_from_start.
+Print Assumptions C17_start_only_known.
+Print Assumptions C17_start_only_unreachable.
+Print Assumptions C17_strict_navigation.
+Print Assumptions C17_navigation_identity_order.
+Print Assumptions C17_navigation_executes.
